@@ -5,7 +5,7 @@ Recs == ndJsonDeserialize(IOEnv.TRACE)
 CheckPad(r) ==
   LET p == Pad(r.data, r.bs, r.cap)
   IN /\ r.data_ok /\ r.rest_ok                       \* data bytes and everything outside the padded length untouched
-     /\ IF p.ok THEN r.ret = 0 /\ r.plen = p.plen /\ r.buf = p.buf
+     /\ IF p.ok THEN r.ret = 0 /\ (r.nullp \/ r.plen = p.plen) /\ r.buf = p.buf   \* nullp: the form with padded_buflen_p = NULL
                 ELSE r.ret = -1 /\ r.buf = <<>>      \* fails without writing (rest_ok covers the whole buffer)
 CheckUnpad(r) ==
   LET u == Unpad([i \in 1..r.pre |-> 0] \o r.block, r.bs)
